@@ -38,6 +38,7 @@ thorough: only the owner modules write running / cleanup links. Fourth round:
 C13.3 a container with neither link ends the resync started or handed to
 clean-up, and the monitor writes the aborted flag before it moves the running
 link.
+Sweep: C13.1 a container is started xor handed to clean-up; C13.2 the hand-over and the link resolution tolerate exactly ENOENT; C13.5 the marker and dot tests take the early exit on their positive outcome, a not-ignored event reaches _configure / _terminate, the cache watcher is wired to the three handlers and its queue is processed when the wait reports events; C13.6 _configure answers success only after the running link exists and removes the cache entry before it answers failure.
 Does NOT decide interleavings of events with clean-up completion.
 """
 
@@ -1114,5 +1115,38 @@ REFACTORS = [
     ('terminal-list-extended', [(_A, """                    for cleanup_file in ['exitinfo', 'aborted', 'oom']:
 """, """                    for cleanup_file in ['exitinfo', 'aborted', 'oom',
                                          'terminated']:
+""")]),
+]
+
+# sweep-driven clauses (DESIGN 9.7)
+MUTANTS += [
+    ('deleted-events-not-wired', [(_A, """        watch.on_deleted = self._on_deleted
+""", """        watch.on_deleted = self._on_modified
+""")], 'C13.5'),
+    ('cache-events-not-processed', [(_A, """                watch.process_events(max_events=5)
+""", """                _LOGGER.debug('cache events pending')
+""")], 'C13.5'),
+    ('failed-configure-stays-cached', [(_A, """                    # configure step failed, skip.
+                    fs.rm_safe(event_file)
+""", """                    # configure step failed, skip.
+""")], 'C13.6'),
+    ('aborted-configure-stays-cached', [(_A, """                                         why=err.reason,
+                                         payload=traceback.format_exc())
+                fs.rm_safe(event_file)
+""", """                                         why=err.reason,
+                                         payload=traceback.format_exc())
+""")], 'C13.6'),
+]
+
+REFACTORS += [
+    ('watcher-local-renamed', [(_A, """        watch = dirwatch.DirWatcher(self.tm_env.cache_dir)
+        watch.on_created = self._on_created
+        watch.on_modified = self._on_modified
+        watch.on_deleted = self._on_deleted
+""", """        cache_dir = self.tm_env.cache_dir
+        watch = dirwatch.DirWatcher(cache_dir)
+        watch.on_deleted = self._on_deleted
+        watch.on_created = self._on_created
+        watch.on_modified = self._on_modified
 """)]),
 ]
